@@ -285,7 +285,7 @@ class Report:
         self.cov["states"] += res.distinct
         self.cov["transitions"] += res.generated
         # generated images: does the real image also follow the reference layout of spec/IsoLayout.tla?  (reported, not a verdict)
-        for m in re.finditer(r'<<"LAYOUT", "((?:[^"\\]|\\.)*)", "(same|differs|n/a|skipped)">>', res.out):
+        for m in re.finditer(r'<<\s*"LAYOUT",\s*"((?:[^"\\]|\\.)*)",\s*"(same|differs|n/a|skipped)"\s*>>', res.out):
             self.layout[m.group(1)] = m.group(2)
 
     def violation(self, sig, text, replay_files=None):
